@@ -46,7 +46,7 @@ Section Eqs.
           | (ROk v, s2) =>
               if existsb (String.eqb n) reserved then (RFail (FUnmodelled "setattr of a name bound in the class"), s2) else
               match M "__setattr__" with
-              | None => (ROk VNone, set_self Ob W (setattr Ob n v (self Ob W s2)) s2)
+              | None => (RFail (FNoMethod "__setattr__"), s2)
               | Some g => let '(r, (a', w')) := g [VStr n; v] (self Ob W s2) (world Ob W s2) in
                           (r, {| locals := locals Ob W s2; self := a'; world := w' |})
               end
